@@ -77,7 +77,8 @@ RULE = ("systematic: rule sets of size 1-4 (thorough 1-5) over saliences {-2,0,0
 
 def main(run):
     return engine_check(run, PID, ENTRIES_P, make_cases, RULE,
-                        ["the installed order rb.Kc.SortRules is taken as observed (its correctness is C08)"])
+                        ["the installed order rb.Kc.SortRules is taken as observed (its correctness is C08)"],
+                        after=lambda r: pool_wrappers_part(r, PID, ['Execute', 'ExecuteSelectedRules', 'ExecuteSelectedRulesWithControl', 'ExecuteSelectedRulesWithControlAsGivenSortedName', 'ExecuteRulesWithMultiInputWithSpecifiedEM']))
 
 
 def replay(run, data):
